@@ -424,6 +424,10 @@ func splitTop(s string) []string {
 }
 
 func (c *Contract) hasProp(p string) bool {
+	if p == "C09" && c.Auto {
+		// every function of the formatting sweep carries C09's "no package-level state is written" frame
+		return true
+	}
 	for _, x := range c.Props {
 		if x == p {
 			return true
